@@ -248,6 +248,25 @@ theorem count_spec (t : Table) (hp : t.hitPolicy = .collectCount) (hne : matchin
   | nil => exact absurd hm hne
   | cons r rs => simp
 
+/-- COLLECT # does not depend on the order of the rules: two tables whose rules are arrangements of each other
+count the same number of matching rules (the other aggregators do not have this property as they stand: C+ rounds
+every partial sum to 34 digits, `sum_exact`). -/
+theorem count_rule_order_irrelevant (t t' : Table) (hp : t.hitPolicy = .collectCount)
+    (hp' : t'.hitPolicy = .collectCount) (hperm : t.rules.Perm t'.rules) (hne : matchingRules t ≠ []) :
+    evaluate t' = evaluate t := by
+  have hf : (matchingRules t).Perm (matchingRules t') := hperm.filter _
+  have hne' : matchingRules t' ≠ [] := by
+    intro h
+    have hl := hf.length_eq
+    rw [h] at hl
+    exact hne (List.length_eq_zero_iff.mp hl)
+  rw [count_spec t hp hne, count_spec t' hp' hne', hf.length_eq]
+
+example : (⟨.collectCount, [], [.none], [.none], [⟨[.t], [.num 1]⟩, ⟨[.f], [.num 2]⟩]⟩ : Table).rules.Perm
+      (⟨.collectCount, [], [.none], [.none], [⟨[.f], [.num 2]⟩, ⟨[.t], [.num 1]⟩]⟩ : Table).rules ∧
+    matchingRules ⟨.collectCount, [], [.none], [.none], [⟨[.t], [.num 1]⟩, ⟨[.f], [.num 2]⟩]⟩ ≠ [] :=
+  ⟨List.Perm.swap _ _ _, by decide⟩
+
 /-- COLLECT +: the sum of the matching outputs when all are numbers (null otherwise, and null
 for compound outputs). -/
 theorem sum_spec (t : Table) (wf : t.WF = true) (hp : t.hitPolicy = .collectSum)
